@@ -63,7 +63,7 @@ const (
 func init() {
 	register(&propDef{
 		id: "C15", level: "proof", run: runC15,
-		explanation: "Exhaustive constant-table x Go-type check: every key of knownMsgNums, every row of _fields, every entry of msgsTypes/newMesgFuncs, every constructor literal and every container member is read from the type-checked source and held against the Go struct types and an independent FIT base-type table. Not decided: that field numbers are the ones SDK 21.115 assigns (the 21.115 workbook is not in the repository). (7-number-history) the number-to-member assignment agrees with the generator outputs for the five bundled earlier SDK versions wherever both know the member.",
+		explanation: "Exhaustive constant-table x Go-type check: every key of knownMsgNums, every row of _fields, every entry of msgsTypes/newMesgFuncs, every constructor literal and every container member is read from the type-checked source and held against the Go struct types and an independent FIT base-type table. Not decided: that field numbers are the ones SDK 21.115 assigns (the 21.115 workbook is not in the repository). (7-number-history) the number-to-member assignment agrees with the generator outputs for the five bundled earlier SDK versions wherever both know the member. (7-kind-history) the kind of every row shared with those outputs equals the kind generated there.",
 		trusted: []string{
 			"go/types type information for /repo",
 			"independent FIT base-type table in checker/c15.go",
